@@ -316,6 +316,7 @@ fn sites(toks: &[Tok], t: usize) -> Vec<usize> {
             let mut out = vec![];
             for (s, e) in lines_of(toks) {
                 let line = &toks[s..e];
+                let to_newline = t == 10;
                 let excluded: &[&str] = if t == 10 { &["IF", "THEN", "ELSE", "DATA", "CASE"] } else { &["DATA"] };
                 if line.iter().any(|t| (t.kind == TokKind::Word && excluded.iter().any(|w| t.text.eq_ignore_ascii_case(w))) || t.kind == TokKind::Comment) {
                     continue;
@@ -330,6 +331,16 @@ fn sites(toks: &[Tok], t: usize) -> Vec<usize> {
                         // a colon directly after the first word of the line is a label
                         if seen_nonblank == 2 && k >= 1 && line[k - 1].kind == TokKind::Word {
                             continue;
+                        }
+                        // `A: Bump: C` — a line end before `Bump:` would make the call a label (a name followed by
+                        // a colon at the start of a line), which is another program
+                        if to_newline {
+                            let mut rest = line[k + 1..].iter().filter(|x| x.kind != TokKind::Blank);
+                            if let (Some(a), Some(b)) = (rest.next(), rest.next()) {
+                                if a.kind == TokKind::Word && b.kind == TokKind::Symbol && b.text == ":" {
+                                    continue;
+                                }
+                            }
                         }
                         out.push(s + k);
                     }
@@ -537,6 +548,21 @@ pub fn drive(tier: &str) -> i32 {
         alpha.push(format!("DEFINT {c}\n{c}1 = 2.6\nPRINT {c}1\nDEFSTR {c}-{c}\nPRINT LEN({c}2)\n"));
     }
     groups.push(super::run_text_group(&mut run, &pool, "names with every letter of the alphabet", &alpha, 4, &extra));
+    // a call without arguments that is not the first statement of its line: `x = 1: Bump: PRINT x`
+    // (a name followed by a colon is a label only at the start of a line)
+    let mut midline: Vec<String> = vec![];
+    let sub = "SUB Bump\nn% = n% + 1\nEND SUB\n";
+    for call in ["Bump", "CLS", "BEEP", "CLOSE"] {
+        let d = "DIM SHARED n%\n";
+        midline.push(format!("{d}n% = 1: {call}: PRINT n%\n{sub}"));
+        midline.push(format!("{d}FOR i% = 1 TO 3: {call}: NEXT\nPRINT n%; i%\n{sub}"));
+        midline.push(format!("{d}n% = 1: {call}\nPRINT n%: {call}: {call}: PRINT n%\n{sub}"));
+        midline.push(format!("{d}PRINT 1: {call}: PRINT 2\nPRINT 3: {call}: PRINT 4\n{sub}"));
+        midline.push(format!("{d}WHILE k% < 2: k% = k% + 1: {call}: WEND\nPRINT n%; k%\n{sub}"));
+        midline.push(format!("{d}Work\nPRINT n%\nSUB Work\nPRINT \"w\": {call}: PRINT n%\nEND SUB\n{sub}"));
+        midline.push(format!("{d}DO: n% = n% + 1: {call}: LOOP UNTIL n% > 3\nPRINT n%\n{sub}"));
+    }
+    groups.push(super::run_text_group(&mut run, &pool, "calls without arguments in the middle of a line", &midline, 4, &extra));
     let mut ev = Evidence::new("exploration");
     ev.set("rule", "for every text of the groups: 18 layout transformations (words lower / upper / alternating case outside strings, comments and DATA; blank runs tripled / turned into a tab; a blank line after every line; a trailing comment on every line without DATA or comment; line ends CR LF / CR; newline -> colon between two simple statements (and a label on its own line joined with the simple statement after it: `Lbl: PRINT 1`); colon -> newline between statements of a line without IF / CASE / DATA; blanks around separators doubled where a blank is adjacent; word case alternating from one occurrence to the next; a blank before and after every statement colon; a long trailing comment holding a URL with a word of 60 letters, quotes and keywords; lines indented by 256 blanks; blank runs of 300 blanks — so that statements start beyond column 255; the blank removed next to = + * / < > , ; and next to a parenthesis that follows or precedes a keyword or a symbol), each applied at all eligible sites, at the even sites, at the odd sites and (texts with few sites) at every single site, plus all of them at once. Observables compared with the original: the parse tree's Debug rendering with positions erased and letters outside string literals upper-cased, the verdict class of parser / checker / run (error kind, run-time code), stdout and LPT1.");
     ev.set("exhaustive", !run.capped);
